@@ -343,6 +343,17 @@ func (e *Exec) evalExpr(x ast.Expr, env *SpecEnv) (v Val, err error) {
 		if id.Name == "forallInt" || id.Name == "existsInt" || id.Name == "forallKey" {
 			return e.evalQuant(id.Name, x, env)
 		}
+		if id.Name == "same" {
+			a, err := tm(x.Args[0])
+			if err != nil {
+				return Val{}, err
+			}
+			b, err := tm(x.Args[1])
+			if err != nil {
+				return Val{}, err
+			}
+			return termVal(Eq(a, b)), nil
+		}
 		if id.Name == "mapHas" {
 			m, err := tm(x.Args[0])
 			if err != nil {
@@ -492,9 +503,9 @@ func (fr *Frame) specBuiltin(st *State, pc Term, name string, args []Val, pos to
 		}
 		rng := And(Cmp("<=", lo, q), Cmp("<", q, hi))
 		if name == "forallInt" {
-			return termVal(T(SBool, "(forall ((%s Int)) %s)", q.S, Implies(rng, body.T).S)), true
+			return termVal(e.name("qf", T(SBool, "(forall ((%s Int)) %s)", q.S, Implies(rng, body.T).S))), true
 		}
-		return termVal(T(SBool, "(exists ((%s Int)) %s)", q.S, And(rng, body.T).S)), true
+		return termVal(e.name("qe", T(SBool, "(exists ((%s Int)) %s)", q.S, And(rng, body.T).S))), true
 	case "forallKey":
 		a := e.toTerm(st, args[0])
 		b := e.toTerm(st, args[1])
@@ -513,7 +524,7 @@ func (fr *Frame) specBuiltin(st *State, pc Term, name string, args []Val, pos to
 			return termVal(True), true
 		}
 		dom := Or(e.p.U.MHas(a, q), e.p.U.MHas(b, q))
-		return termVal(T(SBool, "(forall ((%s String)) %s)", q.S, Implies(dom, body.T).S)), true
+		return termVal(e.name("qk", T(SBool, "(forall ((%s String)) %s)", q.S, Implies(dom, body.T).S))), true
 	case "forallStr", "existsStr":
 		f := args[0]
 		if f.K != vClo {
